@@ -182,7 +182,8 @@ def conclude(mod, tier, seed, results, t0, replay=None, tmp=None, extra_cov=None
         print("KNOWN-FINDING: property=%s %s [%s]" % (pid, known_tags[tag].get("what", v["what"]), tag))
     printed = set()
     for v in new:
-        name = "%s-%s-s%s-sh%s-i%s.json" % (pid, v["tier"], v["seed"], v["shard"], v["idx"])
+        from .core import digest
+        name = "%s-%s-s%s-sh%s-i%s-%s.json" % (pid, v["tier"], v["seed"], v["shard"], v["idx"], digest(v["tag"])[:6])
         path = os.path.join(OUT, "replays", name)
         if path not in printed:
             with open(path, "w") as f:
